@@ -16,6 +16,7 @@ import (
 	"verif/gen"
 	"verif/hx"
 	"verif/rc"
+	"verif/ref"
 )
 
 type job struct {
@@ -343,5 +344,137 @@ func TestC14_Isolation(t *testing.T) {
 		ID: "C14", Sub: "isolation", Checks: hx.Scale(2000, 300000),
 		Rule: "copy isolation: the same battle is built twice; in one copy every caller-side WarriorData is overwritten (code, entry point, name, appended instruction) after AddWarrior and before SpawnWarrior: outcome, final core, queues, Length/Name/LoadCode must equal the untouched twin, and after the battle the caller's data is unchanged. Every case is non-trivial; distinct by case hash.",
 		Gen:  genIsoCase, Judge: judgeIsoCase,
+	})
+}
+
+// ---- several simulators used in turns by one thread must not influence one another
+
+type ilvOp struct {
+	S, Op, N int // simulator, 0 = run N cycles, 1 = (reset and) spawn every warrior
+}
+
+type ilvCase struct {
+	Cfg   simCfg
+	Sims  []battleCase // only Ws and Offs are used; every simulator shares Cfg
+	Sched []ilvOp
+}
+
+func genIlvCase(t *rapid.T) ilvCase {
+	var c ilvCase
+	first := genBattle(t, 3, true)
+	c.Cfg = first.Cfg
+	if c.Cfg.M > 64 {
+		c.Cfg.M = 8 + c.Cfg.M%57
+		c.Cfg.R, c.Cfg.W = c.Cfg.M, c.Cfg.M
+	}
+	c.Cfg.Cycles = rapid.IntRange(5, 60).Draw(t, "cycles")
+	n := rapid.IntRange(2, 3).Draw(t, "nsims")
+	for i := 0; i < n; i++ {
+		b := genBattle(t, 3, true)
+		for k := range b.Ws {
+			for j := range b.Ws[k].Code {
+				b.Ws[k].Code[j].A %= c.Cfg.M
+				b.Ws[k].Code[j].B %= c.Cfg.M
+			}
+		}
+		c.Sims = append(c.Sims, battleCase{Ws: b.Ws, Offs: b.Offs})
+	}
+	ns := rapid.IntRange(4, 40).Draw(t, "nsched")
+	for i := 0; i < ns; i++ {
+		op := ilvOp{S: rapid.IntRange(0, n-1).Draw(t, "s")}
+		if rapid.IntRange(0, 3).Draw(t, "op") == 0 {
+			op.Op = 1
+		} else {
+			op.N = rapid.IntRange(1, 6).Draw(t, "n")
+		}
+		c.Sched = append(c.Sched, op)
+	}
+	return c
+}
+
+func judgeIlvCase(c ilvCase, rec *hx.Rec) string {
+	if c.Cfg.M < 3 || len(c.Sims) == 0 {
+		return "malformed case"
+	}
+	type one struct {
+		sim     gmars.Simulator
+		ws      []gmars.Warrior
+		b       *ref.Battle
+		spawned bool
+	}
+	var sims []*one
+	for _, bc := range c.Sims {
+		bc.Cfg = c.Cfg
+		if malformedBattle(bc) {
+			return "malformed case"
+		}
+		sim, err := gmars.NewSimulator(c.Cfg.G())
+		if err != nil {
+			return err.Error()
+		}
+		o := &one{sim: sim, b: ref.NewBattle(c.Cfg.M, c.Cfg.R, c.Cfg.W, c.Cfg.P, c.Cfg.Cycles)}
+		for _, w := range bc.Ws {
+			gw, _ := sim.AddWarrior(hx.WarriorToG(w))
+			o.ws = append(o.ws, gw)
+			o.b.Add(w)
+		}
+		sims = append(sims, o)
+	}
+	resets, deaths := 0, 0
+	for k, op := range c.Sched {
+		if op.S < 0 || op.S >= len(sims) {
+			return "malformed case"
+		}
+		o := sims[op.S]
+		if op.Op == 1 {
+			if o.spawned {
+				o.sim.Reset()
+				o.b.Reset()
+				resets++
+			}
+			for i, off := range c.Sims[op.S].Offs {
+				if err := o.sim.SpawnWarrior(i, gmars.Address(off)); err != nil {
+					return fmt.Sprintf("step %d: simulator %d SpawnWarrior(%d,%d): %v", k, op.S, i, off, err)
+				}
+				o.b.Spawn(i, off)
+			}
+			o.spawned = true
+		} else if o.spawned {
+			for n := 0; n < op.N && !o.b.Decided() && o.b.Living > 0; n++ {
+				before := o.b.Living
+				want, _ := o.b.RunCycle()
+				if got := o.sim.RunCycle(); got != want {
+					return fmt.Sprintf("step %d: simulator %d RunCycle returned %d, reference %d", k, op.S, got, want)
+				}
+				if o.b.Living < before {
+					deaths++
+				}
+			}
+		}
+		// every simulator, not only the one just used, must still agree with its own model
+		for si, x := range sims {
+			if d := cmpBattleState(x.sim, x.ws, x.b); d != "" {
+				return fmt.Sprintf("after step %d (%+v) simulator %d differs from its own history: %s", k, op, si, d)
+			}
+		}
+	}
+	if rec != nil {
+		var cl []string
+		if resets > 0 {
+			cl = append(cl, "reset_and_respawn")
+		}
+		if deaths > 0 {
+			cl = append(cl, "death")
+		}
+		rec.Case(resets > 0 && deaths > 0, hx.HashJSON(c), func() any { return map[string]any{"cfg": c.Cfg, "sims": len(c.Sims), "schedule": c.Sched} }, cl...)
+	}
+	return ""
+}
+
+func TestC14_Interleaved(t *testing.T) {
+	hx.Run(t, hx.Prop[ilvCase]{
+		ID: "C14", Sub: "interleaved", Checks: hx.Scale(2500, 400000),
+		Rule: "isolation between simulators of one process: 2..3 simulators with the same configuration are used in turns by one thread (spawn, run 1..6 cycles, reset and spawn again, in a generated schedule); after every step every simulator must agree with its own reference model (core, queues, flags, counters), so state recycled or shared between simulators shows. Non-trivial: the schedule contains a reset-and-respawn and a death; distinct by case hash.",
+		Gen: genIlvCase, Judge: judgeIlvCase,
 	})
 }
